@@ -270,8 +270,29 @@ class T(ast.NodeTransformer):
         return ast.copy_location(ast.Assign(targets=[store], value=call), node)
 
 
+RENAMES: Dict[str, str] = {}          # identifier normalisation new -> old (vf.alpha), set by install()
+RENAME_NOTES: List[str] = []
+
+
+def parse_file(path: str) -> ast.AST:
+    """AST of a source file of the tree under check after identifier normalisation (for the syntactic scans)"""
+    if not RENAMES and not RENAME_NOTES:
+        from . import alpha
+        ren, notes = alpha.renames_for(os.path.join(repo_root(), "src"))
+        RENAMES.update(ren)
+        RENAME_NOTES[:] = notes
+    tree = ast.parse(open(path, encoding="utf-8").read(), path)
+    if RENAMES:
+        from . import alpha
+        tree = alpha.Rename(RENAMES).visit(tree)
+    return tree
+
+
 def transform_source(src: str, modname: str, filename: str):
     tree = ast.parse(src, filename)
+    if RENAMES:
+        from . import alpha
+        tree = alpha.Rename(RENAMES).visit(tree)
     tree = T(modname).visit(tree)
     imp = ast.Import(names=[ast.alias(name="vf.rt", asname="__pyvc__")])
     # after docstring / __future__ imports
@@ -331,5 +352,10 @@ def install(src_root: str = None):
         del sys.modules[k]
     sys.meta_path[:] = [f for f in sys.meta_path if not isinstance(f, Finder)]
     sys.meta_path.insert(0, Finder(src_root))
+    from . import alpha
+    ren, notes = alpha.renames_for(src_root)
+    RENAMES.clear()
+    RENAMES.update(ren)
+    RENAME_NOTES[:] = notes
     sys.dont_write_bytecode = True
     return src_root
